@@ -276,3 +276,118 @@ Example restart_keeps_disabled :
   dis_disabled (o_d (restart st)) s_ping [65; 108]%N = false /\
   o_d (restart (restart st)) = o_d (restart st).
 Proof. repeat split; vm_compute; reflexivity. Qed.
+
+(* ---- the registry key Owner.disable writes, read back by DisabledCommands.__init__ ---- *)
+Definition nospecial (s : str) : bool := forallb (fun ch => negb (mem ch special)) s.
+Definition nodot (s : str) : bool := negb (mem 46%N s).
+(* names made of letters, digits, ...: no character canonicalName drops, no '.' *)
+Definition simple (s : str) : bool := nospecial s && nodot s.
+(* what the proofs need of the regenerated table of special characters: none is '.', none is a letter *)
+Definition special_sane : bool :=
+  forallb (fun sp => negb (N.eqb sp 46) && ((sp <? 65) || (90 <? sp))%N && ((sp <? 97) || (122 <? sp))%N) special.
+Lemma special_sane_ok : special_sane = true.
+Proof. vm_compute. reflexivity. Qed.
+
+Lemma last_char_In s c : last_char s = Some c -> In c s.
+Proof.
+  unfold last_char. destruct (rev s) as [|x r] eqn:E; [discriminate|]. intro H. inversion H; subst.
+  apply in_rev. rewrite E. left. reflexivity.
+Qed.
+
+Lemma filter_all {A} (f : A -> bool) l : forallb f l = true -> filter f l = l.
+Proof.
+  induction l as [|x l IH]; simpl; [reflexivity|]. intro H. apply andb_true_iff in H as [H1 H2].
+  rewrite H1, (IH H2). reflexivity.
+Qed.
+
+Lemma canon_nospecial s : nospecial s = true -> canon s = map lower1 s.
+Proof.
+  intro H. unfold canon.
+  assert (Hr : rstrip special s = s).
+  { apply rstrip_id. destruct (last_char s) as [c|] eqn:E; [|exact Logic.I].
+    apply last_char_In in E. unfold nospecial in H. rewrite forallb_forall in H.
+    apply negb_true_iff. apply H. exact E. }
+  rewrite Hr, skipn_all, app_nil_r. rewrite (filter_all _ _ H). reflexivity.
+Qed.
+
+Lemma lower1_letter ch : lower1 ch = ch \/ ((97 <=? lower1 ch) && (lower1 ch <=? 122))%N = true.
+Proof.
+  unfold lower1. destruct ((65 <=? ch) && (ch <=? 90))%N eqn:E; [right|left; reflexivity].
+  apply andb_true_iff in E as [E1 E2]. apply N.leb_le in E1, E2.
+  apply andb_true_iff. split; apply N.leb_le; lia.
+Qed.
+
+Lemma lower1_not_special ch : mem ch special = false -> mem (lower1 ch) special = false.
+Proof.
+  intro H. destruct (lower1_letter ch) as [E|E]; [rewrite E; exact H|].
+  apply andb_true_iff in E as [E1 E2]. apply N.leb_le in E1, E2.
+  apply mem_false. intro Hin. pose proof special_sane_ok as Hs. unfold special_sane in Hs.
+  rewrite forallb_forall in Hs. specialize (Hs _ Hin).
+  apply andb_true_iff in Hs as [_ Hs]. apply orb_true_iff in Hs as [Hs|Hs]; apply N.ltb_lt in Hs; lia.
+Qed.
+
+Lemma lower1_dot ch : N.eqb (lower1 ch) 46 = N.eqb ch 46.
+Proof.
+  unfold lower1. destruct ((65 <=? ch) && (ch <=? 90))%N eqn:E; [|reflexivity].
+  apply andb_true_iff in E as [E1 E2]. apply N.leb_le in E1, E2.
+  transitivity false; [apply N.eqb_neq; lia|symmetry; apply N.eqb_neq; lia].
+Qed.
+
+Lemma lower_nospecial s : nospecial s = true -> nospecial (map lower1 s) = true.
+Proof.
+  unfold nospecial. induction s as [|c s IH]; cbn [map forallb]; [reflexivity|]. intro H.
+  apply andb_true_iff in H as [H1 H2]. apply negb_true_iff in H1.
+  rewrite (lower1_not_special _ H1), (IH H2). reflexivity.
+Qed.
+
+Lemma lower_nodot s : nodot s = true -> mem 46%N (map lower1 s) = false.
+Proof.
+  unfold nodot, mem. intro H. apply negb_true_iff in H.
+  induction s as [|c s IH]; cbn [map existsb] in *; [reflexivity|].
+  apply orb_false_iff in H as [H1 H2]. rewrite (N.eqb_sym 46 (lower1 c)), lower1_dot, (N.eqb_sym c 46), H1. cbn [orb]. apply IH. exact H2.
+Qed.
+
+Lemma lower1_idem ch : lower1 (lower1 ch) = lower1 ch.
+Proof.
+  destruct (lower1_letter ch) as [E|E]; [rewrite E; exact E|].
+  unfold lower1 at 1. apply andb_true_iff in E as [E1 E2]. apply N.leb_le in E1, E2.
+  destruct ((65 <=? lower1 ch) && (lower1 ch <=? 90))%N eqn:E; [|reflexivity].
+  apply andb_true_iff in E as [_ E]. apply N.leb_le in E. lia.
+Qed.
+
+Lemma canon_lower s : nospecial s = true -> canon (map lower1 s) = canon s.
+Proof.
+  intro H. rewrite (canon_nospecial _ (lower_nospecial _ H)), (canon_nospecial _ H), map_map.
+  apply map_ext. apply lower1_idem.
+Qed.
+
+Lemma dot_not_special : mem 46%N special = false.
+Proof. vm_compute. reflexivity. Qed.
+
+Lemma key_plugin p c : simple p = true -> simple c = true ->
+  conf_key (Some p) c = map lower1 p ++ 46%N :: map lower1 c.
+Proof.
+  intros Hp Hc. unfold simple in *. apply andb_true_iff in Hp as [Hp _]. apply andb_true_iff in Hc as [Hc _].
+  unfold conf_key. rewrite canon_nospecial.
+  - rewrite map_app. cbn [app map]. unfold lower1 at 2. reflexivity.
+  - unfold nospecial in *. rewrite forallb_app. cbn [app forallb]. rewrite Hp, Hc, dot_not_special. reflexivity.
+Qed.
+
+(* the entry `disable <plugin> <command>` leaves in the registry, read back at start-up, disables exactly that
+   command in exactly that plugin (names compared canonically) *)
+Theorem restart_entry_plugin p c c' p' : simple p = true -> simple c = true ->
+  entry_disables (conf_key (Some p) c) c' p' = seq_eqb (canon c') (canon c) && seq_eqb (canon p') (canon p).
+Proof.
+  intros Hp Hc. rewrite (key_plugin p c Hp Hc). unfold entry_disables.
+  unfold simple in *. apply andb_true_iff in Hp as [Hp1 Hp2]. apply andb_true_iff in Hc as [Hc1 Hc2].
+  rewrite (split1_char 46%N _ _ (lower_nodot _ Hp2)).
+  rewrite (canon_lower _ Hc1), (canon_lower _ Hp1). reflexivity.
+Qed.
+
+Theorem restart_entry_all c c' p' : simple c = true ->
+  entry_disables (conf_key None c) c' p' = seq_eqb (canon c') (canon c).
+Proof.
+  intro Hc. unfold simple in Hc. apply andb_true_iff in Hc as [Hc1 Hc2].
+  unfold conf_key, entry_disables. rewrite (canon_nospecial _ Hc1).
+  rewrite (split1_char_none 46%N _ (lower_nodot _ Hc2)). rewrite (canon_lower _ Hc1), (canon_nospecial _ Hc1). reflexivity.
+Qed.
